@@ -1084,3 +1084,170 @@ def c13_units():
 
 
 ALL.append(c13_units)
+
+
+# ---- C19: stage row round trip  insert_stage -> row -> row_to_stage
+STAGE_FIELDS = ["id", "ref_id", "type", "name", "status", "context", "outputs", "requisite_stage_ref_ids", "parent_stage_id",
+                "synthetic_stage_owner", "start_time", "end_time", "start_time_expiry", "scheduled_time", "version", "join_type",
+                "join_threshold", "split_type", "split_conditions", "deferred_choice_group", "milestone_ref_id", "milestone_status",
+                "mutex_key", "cancel_region"]
+
+
+def _stage_roundtrip_run(ctx):
+    I = ctx.I
+    from pyvc.values import SFunc
+
+    conn = SQL.new_connection(I)
+    I.st.ghost["the_conn"] = conn
+    stage = T.new_symbolic(I, "StageExecution", "stage")
+    ctx.args["stage"] = stage
+    I.st.objs[stage.oid].fields["mi_config"] = SNone  # multi-instance configuration: outside this unit (listed)
+    for f in STAGE_FIELDS:
+        I.obj_getattr(stage, f)
+    from pyvc.values import VAL
+
+    crec = I.st.dicts[I.getattr(stage, "context").did]
+    rk = I.ops.lit("_output_reducers").t
+    I.st.assume(z3.Implies(z3.Select(crec.has, rk), z3.Or(VAL.is_VDict(z3.Select(crec.vals, rk)), VAL.is_VNone(z3.Select(crec.vals, rk)))))
+    I.st.assume(I.ops.as_int(I.getattr(stage, "join_threshold")) >= 0)
+    # is_valid: the names the engine treats as "no name" round-trip through `or ""`; statuses are enum members by type
+    m, _c, node = I.index.func(P + "helpers:insert_stage")
+    I.call_func(SFunc(node, m, None, None, None, node.name), [conn, stage, SStr(z3.Int("exec_id"))], {})
+    ins = sql_effects(ctx, "insert", "stage_executions")
+    key = ins[0].data["key"]
+    tab = SQL.get_db(I).table("stage_executions")
+    stmt = SQL.parse("SELECT * FROM stage_executions WHERE id = :id")
+    row = SQL.new_row(I, stmt, tab, key)
+    m2, _c2, node2 = I.index.func(P + "converters:row_to_stage")
+    return I.call_func(SFunc(node2, m2, None, None, None, node2.name), [row], {})
+
+
+def _stage_roundtrip_post(ctx):
+    I = ctx.I
+    if ctx.exc is not None:
+        # a primary-key clash on insert and a task-level conflict are the admissible failures of the store step
+        names = I.exc_class_names(ctx.exc)
+        return [("no-exception", z3.BoolVal("IntegrityError" in names or "ConcurrencyError" in names))]
+    a, b = ctx.args["stage"], ctx.result
+    goals = []
+    for f in STAGE_FIELDS:
+        va, vb = I.getattr(a, f), I.getattr(b, f)
+        try:
+            if f == "name":
+                goals.append((f"field.{f}", I.ops.eq(va, vb)))  # "" <-> NULL-or-"" both read back as ""
+            elif f == "requisite_stage_ref_ids":
+                from pyvc import builtins_model as BM
+
+                # structurally: the set read back is built from every element of the stored set, nothing else
+                segs = I.ops.segments(vb)
+                same = all((not isinstance(sg, tuple)) and sg.lid == va.lid and z3.is_true(z3.simplify(sg.cond)) for sg in segs) and len(segs) == 1
+                goals.append((f"field.{f}", z3.BoolVal(same) if not same else z3.And(segs[0].hi == I.ops.list_len(va),
+                              I.ops.eq(segs[0].mapv, I.elem_value(va.lid, tuple(va.idx) + (segs[0].g,))))))
+            else:
+                goals.append((f"field.{f}", I.ops.eq(va, vb)))
+        except Exception as e:  # comparison not expressible
+            goals.append((f"field.{f}.comparable", FALSE))
+    return goals
+
+
+def stage_roundtrip_units():
+    reg = sql_registry()
+    reg.contracts["*._get_connection"] = lambda I, a, k: I.st.ghost["the_conn"]
+    reg.contracts.pop(P + "helpers:insert_stage", None)  # the real insert_stage runs in this unit
+    return [Unit(prop="*", name="L1/insert_stage+row_to_stage", func=P + "converters:row_to_stage", params=[], names=STATUS_NAMES, registry=reg,
+                 replayable=False, run=_stage_roundtrip_run, obligations=[Obl("C19/store/stage-row-roundtrip", _stage_roundtrip_post, when="any")])]
+
+
+ALL.append(stage_roundtrip_units)
+
+
+# ---- upsert_task (C07 G-task) and the task row round trip (C19)
+TASK_FIELDS = ["id", "name", "implementing_class", "status", "start_time", "end_time", "stage_start", "stage_end", "loop_start", "loop_end",
+               "task_exception_details"]
+
+
+def _upsert_setup(ctx):
+    I = ctx.I
+    conn = SQL.new_connection(I)
+    I.st.ghost["the_conn"] = conn
+    ctx.args["conn"] = conn
+    task = ctx.args["task"]
+    for f in TASK_FIELDS + ["version"]:
+        I.obj_getattr(task, f)
+    ctx.extra["v0"] = I.ops.as_int(I.getattr(task, "version"))
+    ctx.extra["key"] = I.getattr(task, "id").t
+
+
+def _upsert_post(ctx):
+    """G-task: the UPDATE is keyed by the task id, guarded by the in-memory version and bumps it; when no row matched an INSERT
+    follows and an existing row (primary-key clash = concurrent modification) raises ConcurrencyError -- never a silent
+    overwrite; on a successful UPDATE the in-memory version is bumped; other rows untouched; no commit."""
+    I = ctx.I
+    ent = entry_table("task_executions")
+    cur = cur_table(ctx, "task_executions")
+    key, v0 = ctx.extra["key"], ctx.extra["v0"]
+    existed = z3.Select(ent.exists, key)
+    matched = z3.And(existed, z3.Select(ent.col("version"), key) == v0)
+    goals = [("other-rows-untouched", _frame(ctx, "task_executions", except_key=key)), ("commit-free", z3.BoolVal(not _commits(ctx)))]
+    for n, e in enumerate(sql_effects(ctx, "update", "task_executions")):
+        d = e.data
+        goals.append((f"update{n}.keyed-and-guarded", z3.BoolVal(bool(d.get("pinned"))) if not d.get("pinned") else
+                      z3.And(d["key"] == key, z3.Implies(d["hit"], z3.Select(ent.col("version"), key) == v0))))
+        if d.get("pinned"):
+            goals.append((f"update{n}.bumps-version", z3.BoolVal("version" in d["sets"]) if "version" not in d["sets"] else
+                          d["sets"]["version"][0] == z3.Select(ent.col("version"), key) + 1))
+    if ctx.exc is None:
+        goals.append(("success-means-matched-or-new", z3.Or(matched, z3.Not(existed))))
+        goals.append(("matched.version-bumped", z3.Implies(matched, z3.And(z3.Select(cur.cols["version"], key) == v0 + 1,
+                                                                          I.ops.as_int(I.getattr(ctx.args["task"], "version")) == v0 + 1))))
+        goals.append(("status-written", z3.Select(cur.cols["status"], key) == status_code(I, I.getattr(ctx.args["task"], "status").t)))
+        goals.append(("row-present", z3.Select(cur.exists, key)))
+    else:
+        names = I.exc_class_names(ctx.exc)
+        goals.append(("only-concurrency-error", z3.BoolVal("ConcurrencyError" in names)))
+        goals.append(("conflict-only-on-stale-version", z3.And(existed, z3.Select(ent.col("version"), key) != v0)))
+        k = fresh_int("anykey")
+        goals.append(("conflict-writes-nothing", z3.And(z3.Select(cur.exists, k) == z3.Select(ent.exists, k),
+                                                        *[z3.Select(cur.cols[c], k) == z3.Select(ent.col(c), k) for c in ("status", "version")])))
+    return goals
+
+
+def _task_roundtrip_run(ctx):
+    I = ctx.I
+    from pyvc.values import SFunc
+
+    task = T.new_symbolic(I, "TaskExecution", "task")
+    ctx.args["task"] = task
+    _upsert_setup(ctx)
+    SQL.get_db(I).table("task_executions").exists = z3.K(INT, False)  # a new task (the INSERT branch)
+    m, _c, node = I.index.func(P + "helpers:upsert_task")
+    I.call_func(SFunc(node, m, None, None, None, node.name), [ctx.args["conn"], task, SStr(z3.Int("stage_id"))], {})
+    tab = SQL.get_db(I).table("task_executions")
+    row = SQL.new_row(I, SQL.parse("SELECT * FROM task_executions WHERE id = :id"), tab, ctx.extra["key"])
+    m2, _c2, node2 = I.index.func(P + "converters:row_to_task")
+    return I.call_func(SFunc(node2, m2, None, None, None, node2.name), [row], {})
+
+
+def _task_roundtrip_post(ctx):
+    I = ctx.I
+    if ctx.exc is not None:
+        return [("no-exception", FALSE)]
+    a, b = ctx.args["task"], ctx.result
+    return [(f"field.{f}", I.ops.eq(I.getattr(a, f), I.getattr(b, f))) for f in TASK_FIELDS]
+
+
+def task_units():
+    reg = sql_registry()
+    reg.contracts.pop(P + "helpers:upsert_task", None)
+    reg.contracts["*._get_connection"] = lambda I, a, k: I.st.ghost["the_conn"]
+    reg.props[("TaskExecution", "stage")] = lambda I, obj: SNone
+    return [
+        Unit(prop="*", name="L1/helpers.upsert_task", func=P + "helpers:upsert_task", names=STATUS_NAMES, registry=reg, replayable=False,
+             params=[("conn", lambda ctx: SNone), ("task", ("obj", "TaskExecution")), ("stage_id", ("str",))], setup=_upsert_setup,
+             obligations=[Obl("C07/G-task", _upsert_post, when="any"), Obl("C06/durable-write-is-guarded/task", _upsert_post, when="any")]),
+        Unit(prop="*", name="L1/upsert_task+row_to_task", func=P + "converters:row_to_task", params=[], names=STATUS_NAMES, registry=reg,
+             replayable=False, run=_task_roundtrip_run, obligations=[Obl("C19/store/task-row-roundtrip", _task_roundtrip_post, when="any")]),
+    ]
+
+
+ALL.append(task_units)
